@@ -27,9 +27,11 @@ KINDS = {
     'repeat': ['canon', 'cl', 'text'],       # fixed URL /same -> revisit under dedup
     'junk': ['junkline', 'cl', 'text'],      # header block with a colon-less line
     'n404': ['canon', 'n404', 'text'],
+    'bighdr': ['biglf', 'cl', 'text'],        # >4 KiB non-canonical header block
+    'embedded': ['canon', 'cl', 'mime'],      # body that looks like a header block
 }
 ORDER = ['canon', 'lfonly', 'chunked_tr', 'empty', 'binary', 'repeat', 'nospace', 'gzip',
-         'junk']
+         'junk', 'bighdr', 'n404', 'embedded']
 BITS = ['compress', 'digests', 'cdx', 'rollover', 'preexisting', 'log', 'extra', 'dedup']
 
 SAME_URL = 'http://h.test/same'
